@@ -733,6 +733,11 @@ func corpus() []Case {
 		mkClaim(0, o1, m1, t1, 0, 6, floorE(5*E+1+d0)-1), g, {K: "getlatest", Get: &GetA{Owner: o1, Miner: m1, Lb: 0, Height: 5*E + 7}},
 		{K: "getlatest", Get: &GetA{Owner: ownersBad[1], Miner: minerExt, Lb: 0, Height: 5*E + 7}}, mkClaim(0, o1, m1, t1, 0, 6, floorE(5*E+1+d0)),
 	})
+	// the epoch guard on its own: a tranche whose unlock height lies before the end of its epoch (never produced by
+	// Process, where depth >= epoch makes the unlock guard imply the epoch guard) is refused while the epoch runs
+	ahead := LOp{K: "add", Add: &AddA{Owner: o1, Miner: m1, Deleg: zero20, SenderOk: true, Lb: 0, Unlock: 2*E + 5, Epoch: 9, Value: "640"}}
+	both("epoch-guard-alone", []LOp{ahead, mkClaim(0, o1, m1, t1, 0, 9, 2*E), mkClaim(0, o1, m1, t1, 0, 9, 8*E+3), mkClaim(2, o1, m1, t1, 0, 9, 9*E-1),
+		mkClaim(0, o1, m1, t1, 0, 9, 9*E), mkClaim(0, o1, m1, t1, 0, 9, 9*E)})
 	// uint32 truncation of the tranche height (out of the monitors' domain)
 	hi := LOp{K: "add", Add: &AddA{Owner: o1, Miner: m1, Deleg: zero20, SenderOk: true, Lb: 0, Unlock: 1<<32 + 5*E + 17, Epoch: 9, Value: "10"}}
 	both("uint32-truncation", []LOp{hi, mkGet(o1, m1, 0, 9), mkClaim(0, o1, m1, t1, 0, 9, 1<<32+5*E), mkClaim(0, o1, m1, t1, 0, 9, 1<<32)})
@@ -775,7 +780,9 @@ func genHistory(r *hlib.Rng) []LOp {
 				o.Add.Lb = uint8(4 + r.Intn(252)) // the ledger key takes any byte; the depth comes from lb%4 here
 			}
 			if r.Chance(10) {
-				switch r.Intn(7) {
+				switch r.Intn(9) {
+				case 7, 8:
+					o.Add.Epoch += uint32(4 + r.Intn(6)) // epoch ahead of the unlock height: exercises the epoch guard alone
 				case 0:
 					o.Add.Unlock = uint64(r.Intn(int(E)))
 				case 1:
